@@ -109,9 +109,13 @@ def glue_cause(group):
     """Which neighbours lost their separator: named after the token that was joined to its predecessor."""
     kinds = [kt(x)[0] for x in group]
     texts = [kt(x)[1] for x in group]
-    if kinds[0] == "TypedLiteralPrefix":
+    # `INT#`, `T#` ...: by its text (for some contexts the lexer calls the same text an identifier)
+    tlp = [k == "TypedLiteralPrefix" or (len(t) > 1 and t.endswith("#") and t[:-1].replace("_", "a").isalnum()) for k, t in group]
+    if "".join(texts[:2])[:2] in ("(*", "/*", "//") and not any(c.isalnum() for c in "".join(texts[:2])):
+        return "operator-chars"          # a comment was opened
+    if tlp[0]:
         return "after-typed-literal-prefix"
-    if "TypedLiteralPrefix" in kinds[1:]:
+    if any(tlp[1:]):
         return "before-typed-literal-prefix"
     if "Hash" in kinds:
         return "hash"
@@ -133,6 +137,10 @@ def diff_class(before, after, cm_before, cm_after):
     bk = kt(before[i])[0]
     bt = [kt(x)[1] for x in before]
     at = [kt(x)[1] for x in after]
+    if i < len(after) and squeeze(bt[i]) == squeeze(at[i]):
+        return "blanks-inside:" + bk               # white space inside the token changed
+    if i + 1 < len(before) and "".join(bt[i:i + 2])[:2] in ("(*", "/*", "//") and not any(c.isalnum() for c in bt[i] + bt[i + 1]):
+        return "glue:" + glue_cause(before[i:i + 2])   # the tokens from here on went into a comment
     # the same characters, grouped into tokens differently
     for total in range(3, 16):
         for j in range(i + 1, min(i + total, len(before)) + 1):
@@ -145,8 +153,6 @@ def diff_class(before, after, cm_before, cm_after):
             if j - i == 1:
                 return "blanks-inside:" + bk           # one token taken apart
             return "glue:" + glue_cause(before[i:j])    # neighbours lost their separator
-    if i < len(after) and kt(after[i])[0] == bk and squeeze(bt[i]) == squeeze(at[i]):
-        return "blanks-inside:" + bk
     # the tokens from here on went into a comment or into an unterminated one
     new_cm = [c for c in cm_after if c not in cm_before]
     tails = new_cm + ([at[i]] if i < len(after) and kt(after[i])[0] == "Error" else [])
@@ -188,7 +194,13 @@ def classify(b, reset, ev, script, evs=()):
     for w in ("died", "hang", "failed", "panic"):
         if w in why:
             key = f"{w}:{b['kind']}" + (":web" if b["via"] == "web" else "")
-            nt, ln = pairs(reset["doc"]), reset["doc"]["ln"]
+            base = reset["doc"]
+            if b["kind"] == "FormatDoc" and b["via"] == "lsp":
+                # FormatDoc on the source comes first in every script: a later one is on the formatted text
+                for k in range(1, len(evs)):
+                    if evs[k]["a"] == "ApplyEdits" and evs[k - 1]["a"] == "FormatDoc" and evs[k - 1]["via"] == "lsp" and evs[k - 1]["on"] == "source":
+                        base = evs[k]["doc"]
+            nt, ln = pairs(base), base["ln"]
             firsts, at = [], 0
             for n, _ in ln:
                 if n:
@@ -211,7 +223,8 @@ def classify(b, reset, ev, script, evs=()):
             if evs[k]["a"] == "ApplyEdits" and evs[k - 1]["a"] == "FormatDoc" and evs[k - 1]["via"] == b["via"] and evs[k - 1]["on"] == "source":
                 first = evs[k]
         if "Error" in mlk or "Pragma" in mlk:
-            cause = "multiline-" + "+".join(k for k in mlk if k in ("Error", "Pragma"))
+            # an unterminated comment / pragma (an error token that runs to the end of the text) or a pragma over several lines
+            cause = "unterminated-comment" if "Error" in mlk else "multiline-pragma"
         elif first is not None and first["doc"]["nk"] != reset["doc"]["nk"]:
             cause = "token-kinds-unstable"      # same token texts, but the lexer gives the glued text other kinds
         else:
@@ -225,12 +238,11 @@ def classify(b, reset, ev, script, evs=()):
             d += "@" + effective_style(cfg)
         at = b.get("at", 0)
         src = pairs(reset["doc"])
-        if "tokens" in why and 0 < at <= len(src) and src[at - 1][0] == "Error" and "\n" in src[at - 1][1]:
-            d = "multiline-error-token"      # the text of an unterminated comment / pragma that runs over lines was changed
-        if d.startswith("blanks-inside:") and not mlk and in_var_block(reset, b.get("at", 0)):
-            d = "colon-alignment-inside-token"
-        if "idempotence" in why or b["on"] == "formatted":
-            d += ":second-pass"
+        if "tokens" in why and 0 < at <= len(src) and src[at - 1][0] == "Error" and src[at - 1][1].startswith(("(*", "/*", "{")):
+            d = "unterminated-comment-token"     # the text of an unterminated comment / pragma (it runs to the end of the text) was changed
+        if (d.startswith("blanks-inside:") and in_var_block(reset, at) and 0 < at <= len(src)
+                and ":" in src[at - 1][1] and src[at - 1][0] not in ("Assign", "Colon")):
+            d = "colon-alignment-inside-token"   # a literal with a `:` in it on a continuation line of a VAR block declaration
         return pre + ":" + d
     if why == {"confinement"}:
         return pre + ":confinement"
@@ -251,7 +263,7 @@ def shorten(ev, n=40):
 class Totals:
     def __init__(self):
         self.counts, self.by_src, self.summary = {}, {}, {"runs": 0, "events": 0, "died": 0, "hangs": 0, "requests": 0}
-        self.nontrivial, self.nbad, self.keys, self.sample = set(), 0, {}, None
+        self.nontrivial, self.nbad, self.keys, self.first, self.sample = set(), 0, {}, {}, None
 
 
 def one_round(rep, work, sp, lsp, tot, name, single=False):
@@ -311,6 +323,12 @@ def one_round(rep, work, sp, lsp, tot, name, single=False):
                 detail = f" tokens before {reset['doc']['nt'][max(0, at - 2): at + 2]} after {ev['doc']['nt'][max(0, at - 2): at + 2]}"
             elif ev["a"] in ("Died", "Hang", "Failed", "Panic"):
                 detail = " " + str(ev.get("status", ev.get("msg", "")))
+            if key not in tot.first:
+                tot.first[key] = {"script_id": b["id"], "source": (sc or {}).get("src", "?"), "request": b["kind"], "via": b["via"], "on": b["on"] or "source",
+                                  "why": why, "cfg": cfg, "text": text[:300],
+                                  "tokens_before": reset["doc"]["nt"][max(0, at - 2): at + 3] if at else [],
+                                  "tokens_after": ev["doc"]["nt"][max(0, at - 2): at + 3] if at and "doc" in ev else [],
+                                  "detail": detail.strip()[:200] if not at else ""}
             rep.violation(key, {"script": sc, "why": why, "deviation": b["dev"], "round": name, "request": b["kind"], "via": b["via"],
                                 "on": b["on"], "first_differing_token": at, "rejected_event": shorten(ev),
                                 "trace": [shorten(e, 12) for e in evs[:-1]]},
@@ -330,13 +348,15 @@ def run(prop, tier, replay):
     work.mkdir(parents=True, exist_ok=True)
     for old in work.glob("chunk*.trace.ndjson*"):
         old.unlink()
+    # (read before Report() empties the replay directory the file may live in)
+    replay_script = json.loads(open(replay).read())["replay"]["script"] if replay else None
     rep = Report(prop, tier, "exploration")
     build_harness()
     lsp = build_repo_bin("trust-lsp", "trust-lsp")
     mc, tot = {}, Totals()
     n_exported = n_simulated = 0
     if replay:
-        sc = json.loads(open(replay).read())["replay"]["script"]
+        sc = replay_script
         sp = work / "replay.scripts.ndjson"
         sp.write_text(json.dumps(sc) + "\n")
         one_round(rep, work, sp, lsp, tot, "replay", single=True)
@@ -391,6 +411,7 @@ def run(prop, tier, replay):
         "server_deaths": tot.summary["died"], "server_hangs": tot.summary["hangs"],
         "rejected_events": tot.nbad,
         "rejected_events_per_key": dict(sorted(tot.keys.items())),
+        "first_rejection_per_key": dict(sorted(tot.first.items())),
         "evaluations": counts.get("applied", 0) - counts.get("inconclusive", 0),
         "distinct_nontrivial": len(tot.nontrivial),
         "rule": "one evaluation = one request (formatting, rangeFormatting, onTypeFormatting, web IDE format_source; on the source or on "
@@ -400,7 +421,7 @@ def run(prop, tier, replay):
         "exhaustive": False,
     }
     return rep.finish(cov, assumptions=[
-        "inputs are sampled: every text `a b` over 68 lexical atoms under both spacing styles (thorough: also `a b c` over 24 atoms), every "
+        "inputs are sampled: every text `a b` over 69 lexical atoms under both spacing styles (thorough: also `a b c` over 24 atoms), every "
         "sequence of up to 2 (thorough: 3) of 21 line templates with every whole-line range and on-type line (a sample of them for documents of more than 4 lines), TLC-simulated "
         "documents x configuration vectors, corpus / mutated / synthetic programs and soups; the claim over all texts is not decided",
         "texts hold no character outside the BMP and no CR that is not part of CR LF (how columns and lines are counted there is C14's subject)",
